@@ -207,6 +207,36 @@ def pbes_mutants(r):
         ("container-algorithm-integer", DerSequence([5, ct]).encode()),
         ("container-clear-pkcs8", inner),
     ]
+    # correctly encrypted containers (right passphrase) whose PLAINTEXT is not a well-formed PrivateKeyInfo: a mutation of the ciphertext can
+    # never reach the decoder behind the decryption (unpadding fails first), a peer that holds the passphrase can
+    pki = DerSequence().decode(inner)
+
+    def enc(data, scheme="PBKDF2WithHMAC-SHA1AndAES128-CBC"):
+        return _PBES.PBES2.encrypt(data, PW, scheme, {"iteration_count": 2}, rf)
+    algid = pki[1]
+    inner_mutants = [
+        ("pbes-inner-empty-sequence", b"\x30\x00"),
+        ("pbes-inner-version-only", DerSequence([0]).encode()),
+        ("pbes-inner-two-members", DerSequence([0, algid]).encode()),
+        ("pbes-inner-two-members-v1", DerSequence([1, algid]).encode()),
+        ("pbes-inner-version-2", DerSequence([2, algid, pki[2]]).encode()),
+        ("pbes-inner-version-octets", DerSequence([DerOctetString(b"\x00").encode(), algid, pki[2]]).encode()),
+        ("pbes-inner-algorithm-integer", DerSequence([0, 5, pki[2]]).encode()),
+        ("pbes-inner-algorithm-empty", DerSequence([0, DerSequence([]).encode(), pki[2]]).encode()),
+        ("pbes-inner-key-integer", DerSequence([0, algid, 5]).encode()),
+        ("pbes-inner-five-members", DerSequence([0, algid, pki[2], DerNull().encode(), DerNull().encode()]).encode()),
+        ("pbes-inner-six-members-v1", DerSequence([1, algid, pki[2], DerNull().encode(), DerNull().encode(), DerNull().encode()]).encode()),
+        ("pbes-inner-trailing-byte", inner + b"\x00"),
+        ("pbes-inner-truncated", inner[:-3]),
+        ("pbes-inner-not-der", b"\x01\x02\x03\x04\x05"),
+        ("pbes-inner-empty", b""),
+        ("pbes-inner-integer", DerInteger(5).encode()),
+        ("pbes-inner-nested-encrypted", good),
+    ]
+    for cls, data in inner_mutants:
+        out.append((cls, enc(data)))
+    out.append(("pbes-inner-two-members-des3", enc(DerSequence([0, algid]).encode(), "PBKDF2WithHMAC-SHA1AndDES-EDE3-CBC")))
+    out.append(("pbes-inner-valid-control", enc(inner)))
     return out
 
 
